@@ -304,23 +304,22 @@ func checkParserLocal(c *core.Ctx) {
 		info := fr.Info()
 		name := p.FName(fr)
 		for _, lit := range goLits(fr.Decl.Body) {
+			// every use of a parser variable inside the goroutine — a method call on it, or handing it (its address)
+			// to a helper — must be of a variable declared inside that goroutine
+			seen := map[types.Object]bool{}
 			ast.Inspect(lit.Body, func(nd ast.Node) bool {
-				se, ok := nd.(*ast.SelectorExpr)
+				id, ok := nd.(*ast.Ident)
 				if !ok {
 					return true
 				}
-				id, ok := se.X.(*ast.Ident)
-				if !ok {
+				v, ok := info.Uses[id].(*types.Var)
+				if !ok || v.IsField() || seen[v] || !strings.HasSuffix(strings.TrimPrefix(v.Type().String(), "*"), "fastjson.Parser") {
 					return true
 				}
-				obj := info.ObjectOf(id)
-				v, ok := obj.(*types.Var)
-				if !ok || !strings.HasSuffix(strings.TrimPrefix(v.Type().String(), "*"), "fastjson.Parser") {
-					return true
-				}
+				seen[v] = true
 				n++
 				local := v.Pos() >= lit.Pos() && v.Pos() <= lit.End()
-				c.Decide(local, "LOCAL", fmt.Sprintf("%s/%s.%s", name, id.Name, se.Sel.Name), se.Pos(), 1, "the parser is declared inside the goroutine that uses it",
+				c.Decide(local, "LOCAL", fmt.Sprintf("%s/%s", name, id.Name), id.Pos(), 1, "the parser is declared inside the goroutine that uses it",
 					fmt.Sprintf("fastjson.Parser %s is declared outside the goroutine that uses it: all workers share one parser, which is not safe for concurrent use (its values are reused by the next Parse)", id.Name))
 				return true
 			})
@@ -393,6 +392,12 @@ func checkLinesReadPublish(c *core.Ctx) {
 				if id.Pos() >= be.Y.Pos() && id.End() <= be.Y.End() {
 					guarded = true
 				}
+			}
+		}
+		// … or sit in the arm that has just received from the done channel: the receive orders it after the reader's writes
+		for i := len(stack) - 1; i >= 0 && !guarded; i-- {
+			if cc, ok := stack[i].(*ast.CommClause); ok && cc.Comm != nil && strings.Contains(core.ExprStr(cc.Comm), "<-done") {
+				guarded = true
 			}
 		}
 		if !guarded {
